@@ -50,7 +50,7 @@ CHECKS["C06"] = dict(
     engine="vsched",
     category="model_checking",
     technique="stateless model checking of the implementation (deviation-bounded DFS under a controlled scheduler, virtual time) over a cause x phase matrix, plus fault enumeration: a scripted polling session cut at every byte",
-    text="Every termination cause (client DISCONNECT frame, Disconnect(false/true), Engine.IO close with each of its five reasons, protocol error, packet for an unjoined namespace, connect timeout) in every phase (before CONNECT, namespace middleware blocked, connected idle, burst in either direction, two namespaces) and every unordered pair of causes at once is executed on the real sio.Server over a harness-implemented Engine.IO socket and explored to the deviation bound; Server.Close, Manager.Close, client Disconnect, Disconnect(true) and a black-holed link run sio<->sio over the in-process polling link; the same API causes, and the new pipe being cut, strike at every half latency (k*L/2, k=0..7) of a transport upgrade over the duplex pipe of rig R4 (real upgrade state machines); a scripted Socket.IO-over-polling session has every request body truncated and every response failed at every byte (262 cut points). Oracle: disconnecting <= 1 and before disconnect, disconnect exactly once with a reason naming an injected cause, no event handler after it, and nothing left in the namespace list, the adapter's raw room indexes, the connection's socket table or the Engine.IO session store; the old sid answers 'unknown sid'.",
+    text="Every termination cause (client DISCONNECT frame, Disconnect(false/true), Engine.IO close with each of its five reasons, protocol error, packet for an unjoined namespace, connect timeout) in every phase (before CONNECT, namespace middleware blocked, connected idle, burst in either direction, two namespaces) and every unordered pair of causes at once is executed on the real sio.Server over a harness-implemented Engine.IO socket and explored to the deviation bound; Server.Close, Manager.Close, client Disconnect, Disconnect(true) and a black-holed link run sio<->sio over the in-process polling link; the same API causes, and the new pipe being cut, strike at every half latency (k*L/2, k=0..7) of a transport upgrade over the duplex pipe of rig R4 (real upgrade state machines); Server.Close, Manager.Close and client Disconnect issued right after Connect() (while the Engine.IO handshake, the CONNECT packet and the admission are under way), judged per connected period of the client socket; a scripted Socket.IO-over-polling session has every request body truncated and every response failed at every byte (262 cut points). Oracle: disconnecting <= 1 and before disconnect, disconnect exactly once with a reason naming an injected cause, no event handler after it, and nothing left in the namespace list, the adapter's raw room indexes, the connection's socket table or the Engine.IO session store; the old sid answers 'unknown sid'.",
     note="Trusted: vsched semantics; rigs R1/R3 (no real TCP; a dead client is modelled by requests that stop and bodies/responses that fail mid-way); the upgrade phase uses C07's rig R4 (a pipe, not a real WebSocket). Scope: bound 2 (quick) / 3 (thorough) after a default-schedule set-up.",
     design="3/C06")
 CHECKS["C11"] = dict(
@@ -109,7 +109,7 @@ CHECKS["C08"] = dict(
     engine="vsched",
     category="model_checking",
     technique="bounded exhaustive enumeration of broadcast histories x disconnect points x reconnection times on the real session-aware adapter in virtual time (controlled scheduler), against a reference log model with a three-valued expectation; plus server-level and Go-client replays",
-    text="Adapter level: every history of length <= 3 (quick) / <= 4 + text-only 5 (thorough) over 16 emit kinds (to all / room / room except room / except the session / direct / other sid / with ack id, text and binary), 10 s or 35 s apart, every disconnect point k, reconnection 1/59/61/119/121/181 s after the disconnect (0-2 passes of the production 60 s cleaner, both sides of the 120 s window), two sessions recovering from the same log. Expectation: must recover / must not / may either (offset packet itself older than the window); oracle: recovered => persisted sid and rooms and exactly the model's missed packets in order, no duplicate, no gap. Server level over harness-implemented Engine.IO sockets: same sid/pid, replayed frames decode to exactly the missed events with byte-identical attachments, unknown pid/offset or expiry => fresh session. Go client over the in-process link: Recovered() and exactly the missed events once, arguments intact, for six handler signatures.",
+    text="Adapter level: every history of length <= 3 (quick) / <= 4 + text-only 5 (thorough) over 20 emit kinds (to all / room / room except room / except the session / direct / other sid / with ack id / the session's own To(room) (in the target room and excluded) / two rooms except the other session, text and binary) x both orders of the persisted session's room list, 10 s or 35 s apart, every disconnect point k, reconnection 1/59/61/119/121/181 s after the disconnect (0-2 passes of the production 60 s cleaner, both sides of the 120 s window), two sessions recovering from the same log. Expectation: must recover / must not / may either (offset packet itself older than the window); oracle: recovered => persisted sid and rooms and exactly the model's missed packets in order, no duplicate, no gap. Server level over harness-implemented Engine.IO sockets: same sid/pid, replayed frames decode to exactly the missed events with byte-identical attachments, unknown pid/offset or expiry => fresh session. Go client over the in-process link: Recovered() and exactly the missed events once, arguments intact, for six handler signatures.",
     note="Trusted: reference log model (packets with an ack id are not logged, as in the reference implementation); vsched virtual clock. Never alarms in the may-either zone.",
     design="3/C08")
 CHECKS["C13"] = dict(
@@ -139,7 +139,7 @@ CHECKS["C07"] = dict(
     engine="vsched",
     category="model_checking",
     technique="stateless model checking of the real upgrade state machines (client tryUpgradeTo/finishUpgradeTo, server maybeUpgrade/upgradeTo, polling Discard/NOOP/re-send) under a controlled scheduler, with fault enumeration over every failure step of the candidate transport",
-    text="A real Engine.IO client and server run over the in-process polling link; numbered text and binary messages are sent in both directions by two sender threads while the upgrade is driven over a reliable duplex pipe handed to the real upgrade code as candidate transport. All schedules up to the deviation bound are explored for the fault-free upgrade and for: handshake refused, probe ping lost, probe pong lost (stall until the upgrade timeout in virtual time), pipe cut before ping / before pong / before UPGRADE, UPGRADE lost. Oracle: the multiset of messages received on each side equals the sent one (nothing lost or duplicated), UpgradeDone once and both sides on the new transport after a fault-free upgrade; after a failed attempt no close, both sides still on polling and traffic sent afterwards is delivered; a loss after the client has swapped may only end the connection with a reported close. The same upgrade is then run under a real Socket.IO server and a real Socket.IO client (Manager) exchanging numbered events with 0-2 binary attachments: pure schedule exploration, and a timed grid (latency of the answer to the in-flight poll 0..4.5 L x emitters starting at every half L of the upgrade x gap 0/L, pipe latency L) explored to bound 1-2; oracle: each application sees every event exactly once with its own attachments and nobody is disconnected.",
+    text="A real Engine.IO client and server run over the in-process polling link; numbered text and binary messages are sent in both directions by two sender threads while the upgrade is driven over a reliable duplex pipe handed to the real upgrade code as candidate transport. All schedules up to the deviation bound are explored for the fault-free upgrade and for: handshake refused, probe ping lost, probe pong lost (stall until the upgrade timeout in virtual time), pipe cut before ping / before pong / before UPGRADE, UPGRADE lost. Oracle: the multiset of messages received on each side equals the sent one (nothing lost or duplicated), UpgradeDone once and both sides on the new transport after a fault-free upgrade; after a failed attempt no close, both sides still on polling and traffic sent afterwards is delivered; a loss after the client has swapped may only end the connection with a reported close. The same upgrade is then run under a real Socket.IO server and a real Socket.IO client (Manager) exchanging numbered events with 0-2 binary attachments: pure schedule exploration, and a timed grid (latency of the answer to the in-flight poll 0..4.5 L, 1.5 s and 30 s x emitters starting at every half L of the upgrade x gap 0/L, pipe latency L) explored to bound 1-2; oracle: each application sees every event exactly once with its own attachments and nobody is disconnected.",
     note="Trusted: vsched semantics; rig R4 (ordered reliable message pipe named 'webtransport') replaces the nhooyr WebSocket / QUIC byte transports, which cannot be put under the scheduler; the real polling->websocket upgrade end to end over loopback is exercised by C01's matrix (transport 'upgrade') without schedule control. Scope: 2 (quick) / 3 (thorough) messages each way, bound 2/3.",
     design="3/C07")
 
